@@ -106,7 +106,7 @@ func vfC18CheckLR(m *vfC18Stub, pi []float64) {
 
 // vfC18CheckAssembly: the assertions on the matrix reported for branch length t.
 // valid: every true entry is known to be >= 0 (then the floor moves an entry by at most DBL_MIN).
-func vfC18CheckAssembly(pm *Pij, m *vfC18Stub, pi []float64, t float64, valid bool) {
+func vfC18CheckAssembly(pm *Pij, m *vfC18Stub, pi []float64, t float64, valid bool, reused bool) {
 	n := m.n
 	ef := vfC18EigenForm(m, t)
 	nofloor := true
@@ -121,7 +121,13 @@ func vfC18CheckAssembly(pm *Pij, m *vfC18Stub, pi []float64, t float64, valid bo
 				want = DBL_MIN
 				nofloor = false
 			}
-			verifAssert(vfC18Within(p[i][j], want, 0), "reported entry = max(DBL_MIN, sum_k R_ik exp(val_k t) L_kj)")
+			// (tolerance 1e-290: how exponentials below the smallest normal double are handled is
+			// IEEE behaviour, outside the claim; anything larger is a wrong entry)
+			if reused {
+				verifAssert(vfC18Within(p[i][j], want, 1e-290), "after SetLength on a used object: reported entry = max(DBL_MIN, sum_k R_ik exp(val_k t) L_kj)")
+			} else {
+				verifAssert(vfC18Within(p[i][j], want, 1e-290), "reported entry = max(DBL_MIN, sum_k R_ik exp(val_k t) L_kj)")
+			}
 			if valid {
 				verifAssert(ef[i][j] >= 0, "true entry is non-negative")
 				verifAssert(p[i][j] <= 1+DBL_MIN || !verifSymbolic(), "entry <= 1")
@@ -201,12 +207,12 @@ func vfC18Assembly(m *vfC18Stub, pi []float64, valid bool) {
 	t := vfC18T()
 	pm, err := NewPij(m, t)
 	verifAssert(err == nil && pm != nil, "NewPij: no error")
-	vfC18CheckAssembly(pm, m, pi, t, valid)
+	vfC18CheckAssembly(pm, m, pi, t, valid, false)
 	verifAssert(m.pijCalls == 0, "non-analytical model: Model.Pij is not consulted")
 	// a second length on the same object replaces the first
 	t2 := vfC18T()
 	verifAssert(pm.SetLength(t2) == nil, "SetLength: no error")
-	vfC18CheckAssembly(pm, m, pi, t2, valid)
+	vfC18CheckAssembly(pm, m, pi, t2, valid, true)
 	// and P(0) = I
 	verifAssert(pm.SetLength(0) == nil, "SetLength(0): no error")
 	vfC18CheckIdentity(pm, m.n)
